@@ -74,9 +74,9 @@ theorem value_only_from_wellformed (isSyn : Bool) (k len : Nat) (body : List Nat
 
 /-! header quirks -/
 
-def Bytes (l : List Nat) : Prop := ∀ x ∈ l, x < 256
+def AllBytes (l : List Nat) : Prop := ∀ x ∈ l, x < 256
 
-theorem getD_lt {l : List Nat} (h : Bytes l) (i : Nat) : l.getD i 0 < 256 := by
+theorem getD_lt {l : List Nat} (h : AllBytes l) (i : Nat) : l.getD i 0 < 256 := by
   unfold List.getD
   cases hi : l[i]? with
   | none => simp
@@ -105,7 +105,7 @@ theorem ipv6_quirks (b : List Nat) (q : Quirk) : (ipv6Layer b).quirks q = specV6
   cases q <;> simp [QSet.union, qIf_apply]
 
 /-- the masked packet type is SYN exactly for an initial SYN, whatever PSH/URG/ECE/CWR/NS say -/
-theorem tcpType_syn_iff (t : List Nat) (h : Bytes t) :
+theorem tcpType_syn_iff (t : List Nat) (h : AllBytes t) :
     (tcpType (tcpFlags9 t) == F_SYN) = isInitialSyn t := by
   have h12 := getD_lt h 12
   have h13 := getD_lt h 13
@@ -118,7 +118,7 @@ theorem tcpType_syn_iff (t : List Nat) (h : Bytes t) :
 
 /-- **TCP quirks**: the header quirks are the documented conditions on the flag bits and fields;
     the rest comes from the option walk, run as "initial SYN" exactly when the masked type is SYN -/
-theorem tcp_quirks (t : List Nat) (h : Bytes t) (q : Quirk) :
+theorem tcp_quirks (t : List Nat) (h : AllBytes t) (q : Quirk) :
     (tcpLayer t).quirks q =
       (specTcpQuirk t q ||
         (parseOpts ((t.take ((t.getD 12 0 / 16) * 4)).drop 20) (isInitialSyn t)).quirks q) := by
